@@ -134,6 +134,33 @@ def sampling_factor_cases(col, rng):
                                  f"{np.diag(pinv).round(4).tolist()}; non-zero columns {nz_cols}, rank used by the density {r}", "input": {"eigenvalues": lam.tolist()}})
 
 
+def sampling_factor_constructor_cases(col, rng):
+    """NON-diagonal precisions (random rotation), full rank and rank-deficient, through every constructor variant incl. a rank supplied as python int /
+    numpy integer / together with log_pdet: the factor S used by sample() satisfies S S' = pseudo-inverse of the precision, and drawn samples are loc + S z"""
+    import jax
+    for m, r in ((3, 3), (4, 2), (3, 1)):
+        K, Q, lam = rand_penalty(rng, m, r)
+        pinv = (Q * np.where(lam > 0, 1.0 / np.where(lam > 0, lam, 1.0), 0.0)) @ Q.T
+        lpd = float(np.sum(np.log(lam[lam > 0])))
+        Kj = jnp.asarray(K, jnp.float32)
+        mks = {"prec": lambda: MVND(jnp.zeros(m), Kj), "prec+int rank": lambda: MVND(jnp.zeros(m), Kj, rank=r), "prec+numpy rank": lambda: MVND(jnp.zeros(m), Kj, rank=np.int64(r)),
+               "prec+rank+log_pdet": lambda: MVND(jnp.zeros(m), Kj, rank=r, log_pdet=lpd), "from_penalty+int rank": lambda: MVND.from_penalty(jnp.zeros(m), jnp.float32(1.0), Kj, rank=r),
+               "from_penalty_smooth+int rank": lambda: MVND.from_penalty_smooth(jnp.zeros(m), jnp.float32(1.0), Kj, rank=r, log_pdet=lpd)}
+        bad = None
+        for name, mk in mks.items():
+            d = mk()
+            S = np.asarray(d._sqrt_pcov, np.float64)
+            if not np.allclose(S @ S.T, pinv, rtol=5e-3, atol=5e-4):
+                bad = f"{name}, dim {m}, rank {r}: S S' = {np.round(S @ S.T, 3).tolist()} but the pseudo-inverse of the precision is {np.round(pinv, 3).tolist()}"
+                break
+            xs = np.asarray(d.sample(4000, seed=jax.random.PRNGKey(11)), np.float64)
+            emp = np.cov(xs, rowvar=False)
+            if not np.allclose(emp, pinv, atol=0.15 * max(1.0, np.abs(pinv).max())):
+                bad = f"{name}, dim {m}, rank {r}: empirical covariance of 4000 draws {np.round(emp, 2).tolist()} vs pseudo-inverse {np.round(pinv, 2).tolist()}"
+                break
+        col.add(None if bad is None else {"sig": "native::mvn_degen::sampling_factor_constructors", "what": bad, "input": {"dim": m, "rank": r, "precision": "random rotation of a diagonal spectrum"}})
+
+
 def batch_cases(col, rng):
     m, r = 3, 2
     K, Q, lam = rand_penalty(rng, m, r)
@@ -183,7 +210,9 @@ def sigmoid_cases(col):
 def copula_cases(col):
     from scipy.stats import norm
 
-    us = np.array([[0.05, 0.9], [0.5, 0.5], [0.3, 0.6], [0.99, 0.02], [0.7, 0.71]])
+    # interior points incl. coordinates far out in the corners of the open unit square (1e-8, 1e-10, the largest float32 below 1)
+    us = np.array([[0.05, 0.9], [0.5, 0.5], [0.3, 0.6], [0.99, 0.02], [0.7, 0.71], [1e-8, 0.5], [0.4, 1e-10], [float(np.float32(1.0) - np.float32(6e-8)), 0.3]])
+    us = np.asarray(us.astype(np.float32), np.float64)  # the reference is evaluated at exactly the float32 points
     for rho in (-0.95, -0.5, -0.1, 0.0, 0.3, 0.8, 0.99):
         for validate in (False, True):
             inp = {"dependence": rho, "validate_args": validate}
@@ -222,6 +251,10 @@ def bounded(tier, seed):
     col.add(user_tolerance_case())
     batch_cases(col, rng)
     try:
+        sampling_factor_constructor_cases(col, rng)
+    except Exception as e:
+        col.add({"sig": f"native::mvn_degen::exception::{type(e).__name__}", "what": str(e)[:200], "input": {"scenario": "sampling factor, constructor variants"}})
+    try:
         sampling_factor_cases(col, rng)
     except Exception as e:
         col.add({"sig": f"native::mvn_degen::exception::{type(e).__name__}", "what": str(e)[:200], "input": {"scenario": "sampling factor"}})
@@ -230,8 +263,8 @@ def bounded(tier, seed):
     return {
         "evaluations": col.evals, "distinct_nontrivial": col.evals,
         "rule": (f"BOUNDED: {n} seeded degenerate-MVN cases (dim 1-4, rank 0..dim, variance in {{0.37,1,5}}) x 7 constructor variants against an eigendecomposition "
-                 "reference incl. null-space invariance; RW1 penalty with eigenvalues scaled by 1e7 / 1e-7 and supplied rank; user tolerances 1e-12 / 0.5 with derived rank and log_pdet; a (2,2) batch; the sampling factor S (S S' = pseudo-inverse, columns = rank, samples in the range space) for well- and ill-conditioned precisions; Gaussian copula also for batches of dependences with 1-3 batch axes (non-symmetric, non-square); algebraic sigmoid on a 9-point grid and in the tails (|x| up to 9999, |y| up to 0.9999, closed-form float64 reference, eager and jit) "
-                 "(inverse, |forward| <= 1, ldj = log of jax.grad); Gaussian copula on 7 dependences in (-1,1) x 5 points x validate_args in {False, True} against the closed form, "
+                 "reference incl. null-space invariance; RW1 penalty with eigenvalues scaled by 1e7 / 1e-7 and supplied rank; user tolerances 1e-12 / 0.5 with derived rank and log_pdet; a (2,2) batch; the sampling factor S (S S' = pseudo-inverse, columns = rank, samples in the range space) for well- and ill-conditioned precisions, and for rotated (non-diagonal) full-rank / rank-deficient precisions through 6 constructor variants (supplied rank as python int, numpy integer, with log_pdet) incl. the empirical covariance of 4000 draws; Gaussian copula also for batches of dependences with 1-3 batch axes (non-symmetric, non-square); algebraic sigmoid on a 9-point grid and in the tails (|x| up to 9999, |y| up to 0.9999, closed-form float64 reference, eager and jit) "
+                 "(inverse, |forward| <= 1, ldj = log of jax.grad); Gaussian copula on 7 dependences in (-1,1) x 8 points (incl. coordinates 1e-8, 1e-10 and the largest float32 below 1) x validate_args in {False, True} against the closed form, "
                  f"plus a matrix batch. Sampling-distribution clauses are not checked (not applicable to this family). seed={seed}"),
         "samples": [{"dim": 4, "rank": 2, "var": 0.37}, {"dependence": -0.5, "validate_args": True}],
         "exhaustive": False, "violations": col.violations,
